@@ -179,43 +179,15 @@ def cut_gate(fn, actions, accept):
     names (or None when the test is not a guard of interest).  Returns (unreached_ok: {action: bool}, matched tests)."""
     cut = set()
     matched = []
+    deferred = []
     for s, kind, ap, info in switch_tests(fn):
         flip = False
         if kind == "bool":
             ap, flip = peel_not(ap)
         acc = accept(kind, ap, info)
         if acc is None and kind == "bool" and ap[0][0] == "local" and not ap[1]:
-            # a materialised boolean (`let z = a || b; if z`): the tested local has several definitions.  The switch's
-            # edge named E is taken only through a definition that can produce E, so when every *constant* definition has
-            # the opposite value and every other definition is a test accepted with E, cutting E is exactly cutting those
-            # tests' accepting edges.
-            defs = fn.defs().get(ap[0][1], [])
-            accs, consts, other = [], [], 0
-            for d in defs:
-                if d[0] == "stmt" and d[3].get("k") == "use":
-                    c = d[3]["a"].get("const") if isinstance(d[3]["a"], dict) else None
-                    if c is not None and c.get("ty") == "bool":
-                        consts.append("true" if c.get("int") else "false")
-                        continue
-                    dap, dflip = peel_not(fn.apath(d[3]["a"]))
-                    a2 = accept("bool", dap, info)
-                    if a2 is not None:
-                        accs.append({{"true": "false", "false": "true"}.get(x, x) for x in a2} if dflip else set(a2))
-                        continue
-                elif d[0] == "call":
-                    import facts as _facts
-                    t_ = d[2]
-                    nm = _facts.callee_name(t_["callee"]) if "callee" in t_ else "<indirect>"
-                    dap = (("call", nm, tuple(fn.apath(a) for a in t_["args"]), d[1]), ())
-                    a2 = accept("bool", dap, info)
-                    if a2 is not None:
-                        accs.append(set(a2))
-                        continue
-                other += 1
-            if accs and not other and all(a == accs[0] for a in accs) and len(accs[0]) == 1:
-                e = next(iter(accs[0]))
-                if all(c != e for c in consts):
-                    acc = accs[0]
+            deferred.append((s, kind, ap, info, flip))
+            continue
         if acc is None:
             continue
         if flip:
@@ -225,6 +197,45 @@ def cut_gate(fn, actions, accept):
             names = set(name.split("|"))
             if names & set(acc):
                 cut.add((s, lab, tgt))
+    # materialised booleans (`let z = a || b; if z`): the tested local has several definitions.  The switch's edge named E is
+    # taken only through a definition that can produce E.  Cutting E is sound when every definition is either a test accepted
+    # with E, or a constant that is not E, or the constant E assigned in a block that is itself only reachable through an
+    # accepting edge that has already been cut (the short-circuit arm of an accepted test).
+    if deferred:
+        import facts as _facts
+        reach0 = fn.reachable(0, cut_edges=cut)
+        for s, kind, ap, info, flip in deferred:
+            defs = fn.defs().get(ap[0][1], [])
+            accs, consts, other = [], [], 0
+            for d in defs:
+                if d[0] == "stmt" and d[3].get("k") == "use":
+                    c = d[3]["a"].get("const") if isinstance(d[3]["a"], dict) else None
+                    if c is not None and c.get("ty") == "bool":
+                        consts.append(("true" if c.get("int") else "false", d[1]))
+                        continue
+                    dap, dflip = peel_not(fn.apath(d[3]["a"]))
+                    a2 = accept("bool", dap, info)
+                    if a2 is not None:
+                        accs.append({{"true": "false", "false": "true"}.get(x, x) for x in a2} if dflip else set(a2))
+                        continue
+                elif d[0] == "call":
+                    t_ = d[2]
+                    nm = _facts.callee_name(t_["callee"]) if "callee" in t_ else "<indirect>"
+                    dap = (("call", nm, tuple(fn.apath(a) for a in t_["args"]), d[1]), ())
+                    a2 = accept("bool", dap, info)
+                    if a2 is not None:
+                        accs.append(set(a2))
+                        continue
+                other += 1
+            if not accs or other or not all(a == accs[0] for a in accs) or len(accs[0]) != 1:
+                continue
+            e = next(iter(accs[0]))
+            if all(c != e or blk not in reach0 for c, blk in consts):
+                acc = {{"true": "false", "false": "true"}.get(e, e)} if flip else {e}
+                matched.append(s)
+                for lab, tgt, name in edge_names(fn, s, kind, info):
+                    if set(name.split("|")) & acc:
+                        cut.add((s, lab, tgt))
     reach = fn.reachable(0, cut_edges=cut)
     return {a: (a not in reach) for a in actions}, matched
 
